@@ -33,9 +33,9 @@ Section Index.
     destruct (classify_one A fx tincl0 (p, h) (f, k)) as [p' h'] eqn:Ec. apply IH; [exact Hfix|].
     unfold classify_one in Ec. cbn [fst snd] in Ec. unfold idx_eq in *.
     destruct k.
-    - destruct (in_dir A f); injection Ec as <- _; cbn [p_index p_files]; rewrite Hp; reflexivity.
+    - destruct (in_dir A f || fix_outside fx); injection Ec as <- _; cbn [p_index p_files]; rewrite Hp; reflexivity.
     - injection Ec as <- _. exact Hp.
-    - destruct (in_dir A f); injection Ec as <- _; unfold remove_file; cbn [p_index p_files]; rewrite Hfix, Hp; reflexivity.
+    - destruct (in_dir A f || fix_outside fx); injection Ec as <- _; unfold remove_file; cbn [p_index p_files]; rewrite Hfix, Hp; reflexivity.
   Qed.
 
   Lemma handle_events_idx dk (p : proj A) evs :
@@ -112,11 +112,15 @@ Section Index.
     destruct (save_push_again (ds s1) f). exact H1.
   Qed.
 
-  Lemma did_close_idx (s : server A) f : idx_eq (pj s) -> idx_eq (pj (fst (did_close A fx s f))).
+  Lemma did_close_idx dk (s : server A) f : idx_eq (pj s) -> idx_eq (pj (fst (did_close A fx dk s f))).
   Proof.
-    intros H. unfold did_close. destruct (clear_change (ds s) f). destruct (in_dir A f); cbn [fst pj].
-    - exact H.
-    - apply remove_file_idx; [exact Hfix|exact H].
+    intros H. unfold did_close. destruct (clear_change (ds s) f) as [d0 ps1]. destruct (in_dir A f); cbn [fst pj]; [exact H|].
+    destruct (fix_outside fx); cbn [fst pj]; [|apply remove_file_idx; [exact Hfix|exact H]].
+    set (p0 := set_lru A (pj s) (frem f (p_lru (pj s)))).
+    pose proof (handle_events_idx dk p0 [(f, KDeleted)] Hfix H) as HE.
+    destruct (handle_events A fx dk p0 [(f, KDeleted)]) as [p1 chg]. cbn [fst] in HE. destruct chg; [|exact HE].
+    set (s2 := {| pj := p0; cache := adel (cache s) f; ds := remove_saved (unmark_clean d0 f) f |}).
+    pose proof (push_again_pj s2 p1) as HP. destruct (push_again A fx s2 p1) as [s3 ps3]. cbn [fst] in *. rewrite HP. exact HE.
   Qed.
 
   Lemma did_watched_idx dk (s : server A) evs : idx_eq (pj s) -> idx_eq (pj (fst (did_watched A fx dk s evs))).
@@ -139,7 +143,7 @@ Section Index.
     - pose proof (did_open_idx (disk w) (sv w) f t H) as HH. destruct (did_open A fx (disk w) (sv w) f t). exact HH.
     - pose proof (did_change_idx (sv w) f t H) as HH. destruct (did_change A (sv w) f t). exact HH.
     - pose proof (did_save_idx (disk w) (sv w) f t H) as HH. destruct (did_save A fx (disk w) (sv w) f t). exact HH.
-    - pose proof (did_close_idx (sv w) f H) as HH. destruct (did_close A fx (sv w) f). exact HH.
+    - pose proof (did_close_idx (disk w) (sv w) f H) as HH. destruct (did_close A fx (disk w) (sv w) f). exact HH.
     - pose proof (did_watched_idx (disk w) (sv w) l H) as HH. destruct (did_watched A fx (disk w) (sv w) l). exact HH.
   Qed.
 
